@@ -439,6 +439,15 @@ func (s *ReverseInnerSearcher) Find(haystack []byte) *Match {
 		// EARLY RETURN: First confirmed match is leftmost by construction!
 		// Forward DFA already finds the longest match from this start position.
 		matchEnd := matchEndAbs
+		if s.prefilter.Find(haystack, pos+1) >= 0 {
+			// Another literal occurrence follows: a greedy prefix (e.g. `.*` in
+			// `.*\.txt\d+`) may run on to it, so this candidate's end need not be
+			// the leftmost-first end. A match starts at matchStart; let the full
+			// pattern decide where it ends.
+			if fStart, fEnd, ok := s.pikevm.SearchAt(haystack, matchStart); ok {
+				return NewMatch(fStart, fEnd, haystack)
+			}
+		}
 		return NewMatch(matchStart, matchEnd, haystack)
 	}
 
@@ -609,6 +618,12 @@ func (s *ReverseInnerSearcher) findIndicesAtImpl(haystack []byte, at int, fwdCac
 
 		// Found valid match
 		matchEnd := matchEndAbs
+		if s.prefilter.Find(haystack, pos+1) >= 0 {
+			// See Find: a greedy prefix may extend to a later literal occurrence.
+			if fStart, fEnd, ok := s.pikevm.SearchAt(haystack, matchStart); ok {
+				return fStart, fEnd, true
+			}
+		}
 		return matchStart, matchEnd, true
 	}
 
